@@ -2,7 +2,16 @@
 
 package resolver
 
-import "github.com/miekg/dns"
+import (
+	"errors"
+	"strconv"
+
+	"github.com/miekg/dns"
+)
+
+func itoaC09(n int) string { return strconv.Itoa(n) }
+
+func errorsIsCorruptC09(err error) bool { return errors.Is(err, errCorruptTombstones) }
 
 // Accessors for the C09 (RFC 5011 trust-anchor) check. No behaviour change.
 
@@ -52,3 +61,27 @@ func VerifC09SameKeyExceptRevoke(a, b *dns.DNSKEY) bool { return sameKeyExceptRe
 
 // VerifC09MaterialFP exposes dnskeyMaterialFP.
 func VerifC09MaterialFP(k *dns.DNSKEY) string { return dnskeyMaterialFP(k) }
+
+// VerifC09ReadTombstones runs the real readTombstones on path and classifies
+// the outcome: "store:<n>" (n entries), "corrupt" (errCorruptTombstones) or
+// "error" (any other error).
+func VerifC09ReadTombstones(path string) string {
+	t, err := readTombstones(path)
+	switch {
+	case err == nil:
+		return "store:" + itoaC09(len(t))
+	case errorsIsCorruptC09(err):
+		return "corrupt"
+	default:
+		return "error"
+	}
+}
+
+// VerifC09ReadState runs the real readFromTAFile: "state:<n>" or "error".
+func VerifC09ReadState(path string) string {
+	t, err := readFromTAFile(path)
+	if err != nil {
+		return "error"
+	}
+	return "state:" + itoaC09(len(t))
+}
